@@ -11,4 +11,53 @@ CLAIMS = {
         note="Trusted: mpmath arithmetic and our 60-line interpreter (self-tested against sympy.N and finite differences). "
         "Programs limited to the grammar and depth 3; inputs on the dyadic grid; singular points skipped and counted.",
     ),
+    "C03": dict(
+        category="exploration",
+        ref="4/C03",
+        technique="bounded exhaustive enumeration (programs x sensor shapes x dyadic grid x CSE) on the real filter vs forward-mode reference derivatives",
+        text="All 27 process shapes and rectangular sensor shapes (readings != states, calibration present) are compiled with "
+        "python.compile_ekf and every Jacobian entry is compared, at every grid point, with dual-number derivatives of our "
+        "own AST in sorted-name layout; exhaustive within the bound.",
+        note="Trusted: the reference interpreter (self-tested against finite differences). Bounds as C01.",
+    ),
+    "C04": dict(
+        category="exploration",
+        ref="4/C04",
+        technique="bounded exhaustive enumeration (programs x covariance menu x dt x dyadic grid x CSE) on the real process_model vs exact reference EKF",
+        text="Every program x covariance x dt x grid point is run through the real ExtendedKalmanFilter.process_model and the "
+        "returned state (by name) and every covariance entry are compared with G P G^T + V M V^T computed in 50-digit "
+        "arithmetic from forward-mode derivatives and the name-keyed noise; inputs are snapshotted and the call repeated.",
+        note="Trusted: reference interpreter and 20-line matrix algebra (self-tested). SPD covariances with condition <= 1e4.",
+    ),
+    "C05": dict(
+        category="exploration",
+        ref="4/C05",
+        technique="bounded exhaustive enumeration (programs x rectangular sensor sets x covariance menu x reading offsets x grid) on the real sensor_model vs exact reference Kalman update",
+        text="Every sensor of every program x covariance x state point x reading offset is run through the real "
+        "ExtendedKalmanFilter.sensor_model; x+, every P+ entry, the recorded innovation and S are compared with the textbook "
+        "update in 50-digit arithmetic with Q = diag(noise by reading name); corollaries checked as separate invariants.",
+        note="Trusted: reference interpreter and matrix algebra (self-tested against scalar closed forms). SPD covariances, condition <= 1e4.",
+    ),
+    "C06": dict(
+        category="exploration",
+        ref="4/C06",
+        technique="exhaustive enumeration of (dimension, threshold, boundary NIS case) on the real Python filter, the C++ helper and the generated C++ filter, with exact-NIS constructions at +-1 ulp of the boundary",
+        text="For every m and k (and disabled) the decision is observed at NIS = T-1ulp, T, T+1ulp and far values, on "
+        "remove_innovation, on sensor_model (discard = inputs returned bit-equal with innovation still recorded), on "
+        "removeInnovation<m> compiled from innovation_filtering.h and on the generated C++ sensor_model; all decisions "
+        "must equal NIS > T and each other.",
+        note="Trusted: IEEE double arithmetic of the host for the oracle; boundary inputs are constructed so the NIS is exact in "
+        "any summation order. C++ side compiled against the vendored Eigen stand-in (DESIGN 2.4).",
+    ),
+    "C09": dict(
+        category="model_checking",
+        ref="4/C09",
+        technique="explicit-state breadth-first search over (estimate, covariance) states of the real compiled filter, all predict/update event sequences to depth 4/5 from 5-6 initial covariances per model, invariant checked on every transition",
+        text="Explicit-state exploration directly on the implementation: every event sequence over the predict/update "
+        "alphabet up to the depth bound is executed with real process_model / sensor_model calls from every initial "
+        "covariance (incl. rank-deficient and 2^20-spread ones) of singular-Jacobian and nonlinear models; symmetry and "
+        "relative positive semi-definiteness are evaluated in every reached state, and any refusal is a violation.",
+        note="No separate model: the transition function is the code, so traces_validated_against_impl = transitions. "
+        "Bounded depth; states canonicalised to 10 significant digits; unbounded (>1e6) states not expanded.",
+    ),
 }
